@@ -31,7 +31,17 @@ def run(ck):
         if a.get("type") == "red-database-corrupting-agent":
             a["agent_settings"].update({"start_step": 2, "frequency": 2, "variance": 0})
     obswalk.walk(ck, "pkg/data_manipulation.yaml (attacker from step 2, every 2 steps)", early, steps=ck.n(24, 60), membership=False, truth=True, episodes=2, idle=0.85)
-    for name, cfg in c02.scenarios(ck):
+    for k, (name, cfg) in enumerate(c02.scenarios(ck)):
+        if name.startswith("family/") and k % 2 == 1:
+            # the three requires-scan switches are independent: make them differ, and keep application slots
+            cfg = copy.deepcopy(cfg)
+            for a in cfg["agents"]:
+                if a.get("type") == "proxy-agent":
+                    o = a["observation_space"]["options"]["components"][0]["options"]
+                    o["applications_requires_scan"] = not o.get("services_requires_scan", True)
+                    o["file_system_requires_scan"] = o.get("services_requires_scan", True) if k % 4 == 1 else o.get("file_system_requires_scan", True)
+                    o["num_applications"] = max(1, o.get("num_applications", 1))
+            name += " (switches made to differ)"
         obswalk.walk(ck, name, cfg, steps=ck.n(30, 90), membership=False, truth=True, episodes=2)
     cases = list(obswalk.NmneMon.cases)
     del obswalk.NmneMon.cases[:]
